@@ -419,11 +419,8 @@ def nCondOf : Val → Nat
 /-- the model objects the five classes construct -/
 inductive IsModel : Val → Prop where
   | base (name : String) : IsModel (mkModel (.str "Model") (.str name) .none)
-  | fixed (name : String) (dis desc rd pd meas idx : Val) (hwf : rdmsWF dis rd pd = true)
-      (hidx : pd.get? "index" = some idx) (hn : norm idx = norm (arange .nd (nCondOf dis))) :
-      IsModel (mkModel (.str "ModelFixed") (.str name) (mkRdms dis desc rd pd meas))
   | other (ty name : String) (dis desc rd pd meas : Val)
-      (hty : ty = "ModelSelect" ∨ ty = "ModelWeighted" ∨ ty = "ModelInterpolate")
+      (hty : ty = "ModelFixed" ∨ ty = "ModelSelect" ∨ ty = "ModelWeighted" ∨ ty = "ModelInterpolate")
       (hwf : rdmsWF dis rd pd = true) :
       IsModel (mkModel (.str ty) (.str name) (mkRdms dis desc rd pd meas))
 
@@ -463,47 +460,6 @@ theorem model_roundtrip (o : Val) (h : IsModel o) :
       subst e1 e2 e3
       refine ⟨mkModel (.str "Model") (.str name) .none, ?_, rfl⟩
       simp [modelFromDict, req, g1, g2, g3, truthy, asName, bind, Except.bind, pure, Except.pure]
-  | fixed name dis desc rd pd meas idx hwf hidx hn =>
-    refine ⟨mkDict [("rdm", mkRdms dis desc rd pd meas), ("name", .str name),
-                    ("type", .str "ModelFixed")], ?_, ?_, ?_⟩
-    · simp [modelToDict, mkModel, mkDict, req, Val.get?, truthy_mkRdms, rdmsToDict_mkRdms, bind,
-        Except.bind, pure, Except.pure]
-    · simp [mkDict, Val.get?, versionKey]
-    · intro d' hs
-      obtain ⟨v1, g1, n1⟩ := hs "rdm" (mkRdms dis desc rd pd meas) (by simp [mkDict, Val.get?])
-      obtain ⟨v2, g2, n2⟩ := hs "name" (.str name) (by simp [mkDict, Val.get?])
-      obtain ⟨v3, g3, n3⟩ := hs "type" (.str "ModelFixed") (by simp [mkDict, Val.get?])
-      have e2 := norm_eq_str n2
-      have e3 := norm_eq_str n3
-      subst e2 e3
-      have t1 : truthy v1 = true := by rw [truthy_of_norm_eq n1]; rfl
-      obtain ⟨dis', desc', rd', pd', meas', f1, m1, m2, m3, m4, m5, wf'⟩ :=
-        rdmsFromDict_sim dis desc rd pd meas v1 hwf (sim_of_norm_eq n1)
-      -- the dissimilarities keep their shape
-      cases dis with
-      | tens c sh el =>
-        obtain ⟨c', el', e1⟩ := norm_eq_tens m1
-        subst e1
-        match sh, hwf with
-        | [nr, np], hwf =>
-          refine ⟨mkModel (.str "ModelFixed") (.str name)
-            (mkRdms (.tens c' [nr, np] el') desc' rd'
-              (pd'.set "index" (arange .nd (Rsa.Gen.C16.nFromReduced np))) meas'), ?_, ?_⟩
-          · simp [modelFromDict, req, g1, g2, g3, t1, f1, truthy_mkRdms, asName, get_pd_mkRdms,
-              get_dis_mkRdms, set_pd_mkRdms, bind, Except.bind, pure, Except.pure]
-          · apply canon_mkModel_congr
-            apply canon_mkRdms_congr m1 m2 m3 _ m5
-            rw [norm_set, m4]
-            have : (norm pd).get? "index" = some (norm idx) := by
-              rw [get?_norm, hidx]; rfl
-            have hn' : norm (arange .nd (Rsa.Gen.C16.nFromReduced np)) = norm idx := by
-              rw [hn]; rfl
-            rw [hn']
-            exact set_get_self _ _ _ this
-      | none => simp [rdmsWF] at hwf
-      | str s => simp [rdmsWF] at hwf
-      | dnil => simp [rdmsWF] at hwf
-      | dcons _ _ _ => simp [rdmsWF] at hwf
   | other ty name dis desc rd pd meas hty hwf =>
     refine ⟨mkDict [("rdm", mkRdms dis desc rd pd meas), ("name", .str name),
                     ("type", .str ty)], ?_, ?_, ?_⟩
@@ -521,7 +477,7 @@ theorem model_roundtrip (o : Val) (h : IsModel o) :
       obtain ⟨dis', desc', rd', pd', meas', f1, m1, m2, m3, m4, m5, wf'⟩ :=
         rdmsFromDict_sim dis desc rd pd meas v1 hwf (sim_of_norm_eq n1)
       refine ⟨mkModel (.str ty) (.str name) (mkRdms dis' desc' rd' pd' meas'), ?_, ?_⟩
-      · rcases hty with h | h | h <;> subst h <;>
+      · rcases hty with h | h | h | h <;> subst h <;>
           simp [modelFromDict, req, g1, g2, g3, t1, f1, truthy_mkRdms, asName, bind, Except.bind,
             pure, Except.pure]
       · exact canon_mkModel_congr (canon_mkRdms_congr m1 m2 m3 m4 m5)
